@@ -196,6 +196,34 @@ def next (t : Tbl) (key0 : OVal) : Except Err (Option (Val × Val)) :=
       else .ok (hashFrom t key)
   | none => .ok (hashFrom t key)
 
+/-- `Next` **after the proposed repair** `fixes/C09-next-after-array-shrink.diff` (`index >= len(tb.array)` instead of
+    `index == len(tb.array)`; after the scan loop `index >= len(tb.array)` always holds, so the block that starts the
+    hash part is entered whenever the array scan is exhausted).  Not what the unchanged tree does — see the finding
+    `C09-next-after-array-shrink`; `Proofs/TableChainFixed.lean` proves that this version is complete also when
+    `Remove` shrinks the array part during the traversal. -/
+def nextFixed (t : Tbl) (key0 : OVal) : Except Err (Option (Val × Val)) :=
+  let init := key0.isNone
+  let key : Val := key0.getD (.int 0)
+  let arrCase : Option Int :=
+    if init ∨ key ≠ .int 0 then
+      match key with
+      | .int i => if 0 ≤ i ∧ i < (t.mai : Int) then some i else none
+      | _ => none
+    else none
+  match arrCase with
+  | some i =>
+    match scanArr t.array i.toNat with
+    | some (k, v) => .ok (some (.int k, v))
+    | none =>
+      if t.dict.isEmpty ∧ t.strdict.isEmpty then .ok none
+      else match t.keys with
+        | [] => .error (.goPanic "Next: tb.keys[0]")
+        | k0 :: _ =>
+          match rawGetH t k0 with
+          | some v => .ok (some (k0, v))
+          | none => .ok (hashFrom t k0)
+  | none => .ok (hashFrom t key)
+
 /-- `ForEach`: array part in order, then strdict, then dict (map order is unspecified in Go;
     the driver sorts the hash part before comparing). -/
 def forEach (t : Tbl) : List (Val × Val) :=
@@ -206,6 +234,77 @@ def forEach (t : Tbl) : List (Val × Val) :=
     | some v :: r => (.int (i + 1), v) :: arr r (i + 1)
   arr t.array 0 ++ t.strdict ++ t.dict
 
+/-- `baselib.go: ipairsaux` — one step of `ipairs`: `i++; v := tb.RawGetInt(i)`; nothing when `v == LNil`,
+    else the pair `(i, v)`. -/
+def ipairsAux (t : Tbl) (i : Int) : Option (Int × Val) :=
+  match rawGetInt t (i + 1) with
+  | none => none
+  | some v => some (i + 1, v)
+
+/-- the generic `for` over `ipairs(t)`: iterate `ipairsaux` from the control value 0 (fuel = bound on the number of
+    calls; `none` = fuel exhausted). -/
+def ipairsRun (t : Tbl) : Nat → Int → Option (List (Int × Val))
+  | 0, _ => none
+  | f + 1, i =>
+    match ipairsAux t i with
+    | none => some []
+    | some (j, v) => (ipairsRun t f j).map ((j, v) :: ·)
+
+/-! ### `ForEach` with a callback that stores into the table
+
+  `for i, v := range tb.array` evaluates the slice header once and reads each element when it reaches it;
+  `for k, v := range m` over a Go map: an entry removed before it is reached is not produced, an entry is produced
+  with the value it has when it is reached, no entry is produced twice, every entry that is never removed is
+  produced; the order is unspecified (language spec, "For statements with range clause").  So the iteration is a
+  nondeterministic process; `feStep` says whether delivering `(k, v)` next is admissible on the table as it is now
+  (= after the stores of the previous callback), `feEnd` whether the iteration may end now.  Only callbacks that
+  clear or overwrite *existing* fields are in scope (an insertion into a map during `range` may or may not be produced). -/
+
+structure FEState where
+  phase : Nat := 0          -- 0 = array part, 1 = strdict, 2 = dict
+  idx   : Nat := 0          -- array slots already passed
+  alen  : Nat := 0          -- len(tb.array) when ForEach was entered
+  seen  : List Val := []    -- keys delivered so far
+  seenH : List Val := []    -- … those delivered out of one of the two maps (a Go map yields an entry at most once; the
+                            -- array loop and a map can both hold the same integer only in the state of the finding
+                            -- C09-array-past-maxarrayindex, and then both deliver it)
+deriving Repr, Inhabited
+
+def feBegin (t : Tbl) : FEState := { alen := t.array.length }
+
+/-- all array slots `i ≤ · < j` are nil now. -/
+def arrNilBetween (t : Tbl) (i j : Nat) : Bool :=
+  (List.range (j - i)).all (fun d => ((t.array[i + d]?).join).isNone)
+
+/-- every key that is live in the map now has been delivered. -/
+def alAllSeen (l : AL) (seen : List Val) : Bool := l.all (fun p => seen.contains p.1)
+
+/-- is `(k, v)` the next delivery of the array loop?  (decided by position, as the Go loop does, not by `isArrayKey`:
+    the next non-nil slot after the ones passed, read now) -/
+def feArrNext (t : Tbl) (s : FEState) (k v : Val) : Option Nat :=
+  match k with
+  | .int z =>
+    if s.phase = 0 ∧ (s.idx : Int) < z ∧ z ≤ (s.alen : Int) ∧ arrNilBetween t s.idx (z.toNat - 1) = true ∧
+        (t.array[z.toNat - 1]?).join = some v then some z.toNat else none
+  | _ => none
+
+def feStep (t : Tbl) (s : FEState) (k v : Val) : Option FEState :=
+  match feArrNext t s k v with
+  | some j => some { s with idx := j, seen := s.seen ++ [k] }
+  | none =>
+    if !arrNilBetween t s.idx s.alen then none           -- a live array slot has not been delivered
+    else if isStr k then
+      if s.phase ≤ 1 ∧ alGet t.strdict k = some v ∧ !s.seenH.contains k then
+        some { s with phase := 1, idx := s.alen, seen := s.seen ++ [k], seenH := s.seenH ++ [k] }
+      else none
+    else
+      if (s.phase = 2 ∨ alAllSeen t.strdict s.seenH) ∧ alGet t.dict k = some v ∧ !s.seenH.contains k then
+        some { s with phase := 2, idx := s.alen, seen := s.seen ++ [k], seenH := s.seenH ++ [k] }
+      else none
+
+def feEnd (t : Tbl) (s : FEState) : Bool :=
+  arrNilBetween t s.idx s.alen && (s.phase = 2 || alAllSeen t.strdict s.seenH) && alAllSeen t.dict s.seenH
+
 /-- `LState.RawSet` / `setField` validation: a store under nil or NaN is a Lua error.
     (`nan = true` marks a NaN key; canonical `Val`s never contain NaN.) -/
 def luaSet (t : Tbl) (k : OVal) (nan : Bool) (v : OVal) : Except Err Tbl :=
@@ -213,5 +312,69 @@ def luaSet (t : Tbl) (k : OVal) (nan : Bool) (v : OVal) : Except Err Tbl :=
   else match k with
     | none => .error (.luaError "table index is nil")
     | some k => .ok (rawSet t k v)
+
+/-! ### number keys: from the float64 bit pattern to the key
+
+  `LNumber` is a float64.  The Go maps `dict`/`k2i` compare `LNumber` keys with float64 `==` (so `+0` and `-0` are
+  one key and NaN is never found again); the array path is taken for `isArrayKey(v)` with index `int(v)`.
+  On the wire and in this Model a number key is *canonical*: `.int z` for a finite integral value `z`
+  (whatever its spelling or sign of zero), `.flt bits` otherwise (non-integral or ±Inf); NaN is no key.
+  `numKey` is that canonicalisation, as a function of the IEEE-754 bit pattern (exact integer arithmetic). -/
+
+def f64neg (bits : Nat) : Bool := bits / 2 ^ 63 % 2 == 1
+def f64exp (bits : Nat) : Nat := bits / 2 ^ 52 % 2048
+def f64frac (bits : Nat) : Nat := bits % 2 ^ 52
+/-- significand and shift: the value is `± f64mant · 2^(f64sh − 1075)` (subnormals: shift 1, no hidden bit). -/
+def f64mant (bits : Nat) : Nat := if f64exp bits = 0 then f64frac bits else f64frac bits + 2 ^ 52
+def f64sh (bits : Nat) : Nat := if f64exp bits = 0 then 1 else f64exp bits
+
+def isNaNBits (bits : Nat) : Bool := f64exp bits == 2047 && f64frac bits != 0
+
+def signed (neg : Bool) (a : Nat) : Int := if neg then -(a : Int) else (a : Int)
+
+/-- `± m · 2^(s − (c+1))`, if that is an integer. -/
+def scaledInt? (neg : Bool) (m s c : Nat) : Option Int :=
+  if c + 1 ≤ s then some (signed neg (m * 2 ^ (s - (c + 1))))
+  else if m % 2 ^ (c + 1 - s) = 0 then some (signed neg (m / 2 ^ (c + 1 - s)))
+  else none
+
+/-- `± m · 2^(s − (c+1))` truncated toward zero. -/
+def scaledTrunc (neg : Bool) (m s c : Nat) : Int :=
+  if c + 1 ≤ s then signed neg (m * 2 ^ (s - (c + 1))) else signed neg (m / 2 ^ (c + 1 - s))
+
+/-- the value, if it is finite and integral (value = `± f64mant · 2^(f64sh − 1075)`). -/
+def f64int? (bits : Nat) : Option Int :=
+  if f64exp bits = 2047 then none else scaledInt? (f64neg bits) (f64mant bits) (f64sh bits) 1074
+
+/-- the canonical key of a number; `none` for NaN. -/
+def numKey (bits : Nat) : Option Val :=
+  if isNaNBits bits then none
+  else match f64int? bits with
+    | some z => some (.int z)
+    | none => some (.flt bits)
+
+/-- truncation toward zero of a finite value. -/
+def f64trunc (bits : Nat) : Int := scaledTrunc (f64neg bits) (f64mant bits) (f64sh bits) 1074
+
+/-- Go's `int64(v)` on amd64 (CVTTSD2SQ): truncation; NaN, ±Inf and out-of-range values give `-2^63`. -/
+def goInt64 (bits : Nat) : Int :=
+  if f64exp bits = 2047 then -(2 ^ 63)
+  else if -(2 ^ 63 : Int) ≤ f64trunc bits ∧ f64trunc bits < 2 ^ 63 then f64trunc bits else -(2 ^ 63)
+
+/-- `utils.go: isInteger(v)` = `float64(v) == float64(int64(v))`.  `float64(int64(v))` is exact here: `int64(v)` is
+    the value of `v` itself, or a truncation of magnitude `< 2^52`, or `-2^63`; so the comparison holds exactly when the
+    value of `v` *is* the integer `int64(v)`. -/
+def goIsInteger (bits : Nat) : Bool := f64int? bits == some (goInt64 bits)
+
+/-- `utils.go: isArrayKey(v)` = `isInteger(v) && v < LNumber(MaxInt) && v > 0 && v < LNumber(MaxArrayIndex)`
+    (`LNumber(MaxInt)` is `2^63`; the comparisons are between integral values, hence exact). -/
+def goIsArrayKey (mai : Nat) (bits : Nat) : Bool :=
+  goIsInteger bits && decide (goInt64 bits < 2 ^ 63) && decide (0 < goInt64 bits) && decide (goInt64 bits < (mai : Int))
+
+/-- the Lua-level store `t[k] = v` with a number key given by its bit pattern (`LState.RawSet` / `setField`). -/
+def luaSetNum (t : Tbl) (bits : Nat) (v : OVal) : Except Err Tbl :=
+  match numKey bits with
+  | none => .error (.luaError "table index is NaN")
+  | some k => .ok (rawSet t k v)
 
 end GLua.Table
